@@ -21,7 +21,7 @@ pub struct Homology {
 
 impl Homology {
     fn arity(&self) -> usize {
-        if self.ring == RingSel::Z { 1 } else { 2 }
+        if self.ring == RingSel::Z || self.ring == RingSel::Q { 1 } else { 2 }
     }
     fn split<'a, I>(&self, xs: &'a [I]) -> (&'a [I], &'a [I]) {
         xs.split_at(self.n * self.m * self.arity())
@@ -141,7 +141,7 @@ impl Harness for Homology {
         for<'x> &'x I: VIntOps<I>,
     {
         match self.ring {
-            RingSel::Z => self.pre_r::<I, I>(xs),
+            RingSel::Z | RingSel::Q => self.pre_r::<I, I>(xs),
             // quadratic rings: see `pre_quad`
             _ => self.pre_quad::<I>(xs),
         }
@@ -154,6 +154,7 @@ impl Harness for Homology {
             RingSel::Z => self.check::<I, I>(xs),
             RingSel::Gauss => self.check::<I, GaussInt<I>>(xs),
             RingSel::Eisen => self.check::<I, EisenInt<I>>(xs),
+            RingSel::Q => self.check::<I, yui::Ratio<I>>(xs),
         }
     }
 }
